@@ -34,6 +34,8 @@ class GNet(nn.Module):
                 r = inputs[ins[1]]
             elif op in MODULE_OPS:
                 r = getattr(self, 'n%d' % i)(v[ins[1]])
+            elif op == 'reuse':
+                r = getattr(self, 'n%d' % ins[2])(v[ins[1]])
             elif op == 'relu':
                 r = F.relu(v[ins[1]])
             elif op == 'add':
@@ -76,7 +78,7 @@ class Builder:
         op = ins[0]
         if op in ('cat', 'flatm', 'flatf'):
             t = True
-        elif op in ('conv', 'lin', 'input'):
+        elif op in ('conv', 'lin', 'input', 'reuse'):
             t = False
         elif op == 'add':
             t = self.taint[ins[1]] or self.taint[ins[2]]
@@ -166,6 +168,27 @@ def gen_program(rng, dim, opts=None):
             if b.sp[cur] >= 4:
                 m = nn.AvgPool1d(2) if dim == 1 else (nn.MaxPool2d(2) if rng.random() < .5 else nn.AvgPool2d(2))
                 cur = b.add(('pool', cur, m), b.ch[cur], b.sp[cur] // 2)
+    if o.get('reuse') and not b.taint[cur] and b.sp[cur] >= 4:
+        # one layer invoked twice per forward, on a tensor and on its pooled version (same producer,
+        # hence same mask): per-invocation metrics must charge each call site its own output shape
+        g = b.conv(cur, keep_size=True, k_choices=[1, 3])
+        gnode = g - 1 if b.prog[g - 1][0] == 'conv' else g - 2     # node of the conv itself
+        while b.prog[gnode][0] != 'conv':
+            gnode -= 1
+        pooled = b.add(('pool', cur, nn.AvgPool1d(2) if dim == 1 else nn.AvgPool2d(2)), b.ch[cur], b.sp[cur] // 2)
+        src2 = pooled
+        if dim == 1:
+            m = b.prog[gnode][-1]
+            src2 = b.add(('pad', pooled, nn.ConstantPad1d(((m.kernel_size[0] - 1) * m.dilation[0], 0), 0.)), b.ch[cur], b.sp[pooled])
+        g2 = b.add(('reuse', src2, gnode), b.ch[g], b.sp[pooled])
+        g2 = b.add(('relu', g2), b.ch[g], b.sp[pooled])
+        # join the two call sites after flattening
+        fa = b.add(('flatf', g), b.ch[g] * (b.sp[g] if dim == 1 else b.sp[g] ** 2), 1)
+        fb = b.add(('flatf', g2), b.ch[g] * (b.sp[g2] if dim == 1 else b.sp[g2] ** 2), 1)
+        feat = b.ch[fa] + b.ch[fb]
+        f = b.add(('cat', [fa, fb]), feat, 1)
+        b.add(('lin', f, nn.Linear(feat, rng.choice([2, 3]))), 0, 1)
+        return b.prog, [shape] * (2 if two else 1)
     unsup = o.get('unsupported')
     if unsup == 'add_cat':
         # residual sum one of whose operands is a channel concat (known finding K9)
@@ -185,6 +208,7 @@ def gen_program(rng, dim, opts=None):
     else:
         feat = b.ch[cur] * (b.sp[cur] if dim == 1 else b.sp[cur] ** 2)
         f = b.add(('flatm', cur, nn.Flatten(1)) if rng.random() < .5 else ('flatf', cur), feat, 1)
+    head = o.get('head') or rng.choice(['plain', 'plain', 'plain', 'relu', 'bn', 'add', 'cat'])
     if rng.random() < .5:
         h = rng.choice([3, 4, 5])
         lyr = b.add(('lin', f, nn.Linear(feat, h, bias=rng.random() < .8)), h, 1)
@@ -192,7 +216,20 @@ def gen_program(rng, dim, opts=None):
             lyr = b.add(('bn', lyr, nn.BatchNorm1d(h)), h, 1)
         f = b.add(('relu', lyr), h, 1)
         feat = h
-    b.add(('lin', f, nn.Linear(feat, rng.choice([2, 3]))), 0, 1)
+    nout = rng.choice([2, 3])
+    last = b.add(('lin', f, nn.Linear(feat, nout)), nout, 1)
+    # the network output reaches the caller through a post-op, a residual sum or a concatenation
+    if head == 'relu':
+        b.add(('relu', last), nout, 1)
+    elif head == 'bn':
+        b.add(('bn', last, nn.BatchNorm1d(nout)), nout, 1)
+    elif head == 'add':
+        other = b.add(('lin', f, nn.Linear(feat, nout)), nout, 1)
+        b.add(('add', last, other), nout, 1)
+    elif head == 'cat':
+        other = b.add(('lin', f, nn.Linear(feat, rng.choice([2, 3]))), 0, 1)
+        other = b.add(('relu', other), 0, 1) if rng.random() < .5 else other
+        b.add(('cat', [last, other]), 0, 1)
     return b.prog, [shape] * (2 if two else 1)
 
 
@@ -266,6 +303,8 @@ def render(prog, shapes_rec, excl, layer_info):
                     out.append('fixed %d %d 1 %d 1 1' % (ins[1], m.out_features, bias))
                 else:
                     out.append('lin %d %d %d' % (ins[1], m.out_features, bias))
+        elif op == 'reuse':
+            return None          # layer reuse is not in the Lean bookkeeping model
         elif op == 'add':
             out.append('add %d %d' % (ins[1], ins[2]))
         elif op == 'cat':
